@@ -195,7 +195,47 @@ class _FPCoreCompileInstance(Visitor):
     def compile(self) -> fpc.FPCore:
         f = self._visit_function(self.func, None)
         assert isinstance(f, fpc.FPCore), 'unexpected result type'
+        self._wrap_annotation_props(f.e)
         return f
+
+    def _wrap_annotation_props(self, e: fpc.Expr):
+        """Property values of every `!` annotation are `fpc.Data`.
+
+        The annotations this compiler synthesizes (`:precision integer` around
+        index arithmetic and unrounded integers) are built from plain strings;
+        titanfp's parser -- and so `fpcore_to_fpy` -- expects `fpc.Data`, as a
+        core read from text has.  Without this a compiled core could be
+        printed and evaluated but not read back (`Function.from_fpcore`).
+        """
+        stack: list = [e]
+        while stack:
+            cur = stack.pop()
+            match cur:
+                case fpc.Ctx():
+                    cur.props = {
+                        k: v if isinstance(v, fpc.Data) else fpc.Data(self._visit_data(v))
+                        for k, v in cur.props.items()
+                    }
+                    stack.append(cur.body)
+                case fpc.If():
+                    stack += [cur.cond, cur.then_body, cur.else_body]
+                case fpc.Let():
+                    stack += [val for _, val in cur.let_bindings]
+                    stack.append(cur.body)
+                case fpc.While():
+                    stack.append(cur.cond)
+                    for _, init, update in cur.while_bindings:
+                        stack += [init, update]
+                    stack.append(cur.body)
+                case fpc.For() | fpc.Tensor():
+                    stack += [val for _, val in cur.dim_bindings]
+                    for _, init, update in getattr(cur, 'while_bindings', None) or []:
+                        stack += [init, update]
+                    stack.append(cur.body)
+                case fpc.NaryExpr():
+                    stack += list(cur.children)
+                case _:
+                    pass
 
     def _compile_arg(self, arg: Argument) -> tuple[str, dict, list[int | str] | None]:
         match arg.type:
